@@ -174,6 +174,25 @@ def search_c04(rng, n, S=None, kinds=None):
                     Rh2 = Rh2 + term
             S.check(float(abs(csr_array(Mb) - Mh2).max()) <= 1e-12 * max(1.0, float(abs(Mh2).max())) and np.allclose(Rb, Rh2, rtol=1e-12, atol=1e-12 * max(1.0, float(np.max(np.abs(Rh2))))),
                     f"C04:system-shared-bc:{kind}", "with a shared BoundaryConditions object the system handed to the solver is not (current boundary term + sum of the terms)", inp, None, None)
+            # (5c) the in-place contract also holds for a variable that came from the explicit solver
+            #      (it has no precalculated boundary terms) and for one constructed with BCsTerm_precalc=False
+            for how in ("explicit", "noprecalc"):
+                if how == "explicit":
+                    p0 = pf.CellVariable(mc.m, x0.copy(), make_bcs(mc, spec))
+                    pe = pf.solveExplicitPDE(p0, 1e-3, np.zeros(int(np.prod(mc.gshape()))))
+                else:
+                    pe = pf.CellVariable(mc.m, x0.copy(), make_bcs(mc, spec), BCsTerm_precalc=False)
+                old_int = np.array(pe.value, copy=True)
+                tl = [pf.transientTerm(pe, dt, 1.0)] + [t_ for _, t_ in sp]
+                rece = RecordingSolver()
+                rete = pf.solvePDE(pe, tl, externalsolver=rece)
+                S.check(rete is pe, f"C04:returns-argument-{how}:{kind}", f"solvePDE on a variable without precalculated boundary terms ({how}) did not return / update the variable it was given",
+                        inp, "different object", "same object")
+                xe = rece.calls[-1][2]
+                if np.all(np.isfinite(xe)):
+                    S.check(bool(np.allclose(np.asarray(pe.value), interior(mc, xe), rtol=1e-12, atol=1e-14)), f"C04:stored-{how}:{kind}",
+                            f"the variable passed to solvePDE ({how}) does not hold the solver's solution afterwards", inp,
+                            float(np.max(np.abs(np.asarray(pe.value) - interior(mc, xe)))), 0.0)
             # (6) linearity in sources, boundary data c, previous values
             s_ = rng.choice([2.0, -0.5, 3.0])
             Dm = -pf.diffusionTerm(make_facevar(mc, [np.array(a) for a in desc["D"]]))
@@ -280,6 +299,18 @@ def search_c12(rng, n, S=None, kinds=None):
                     "explicit step != old + dt*RHS on interior cells", inp, None, None)
             robin_check(S, mc, pn.BCs, np.asarray(pn._value), "solveExplicitPDE(C12)", inp)
             S.check(pn is not pe, f"C12:explicit-new-object:{kind}", "explicit solver returned its input object", inp, None, None)
+            # explicit step followed by an implicit step on the returned variable: in place, and obeying the row law
+            oldn = np.asarray(pn._value).copy()
+            recn = RecordingSolver()
+            retn = pf.solvePDE(pn, [pf.transientTerm(pn, dt, alpha)] + [t_ for _, t_ in sp], externalsolver=recn)
+            xn = recn.calls[-1][2]
+            okn = retn is pn and np.all(np.isfinite(xn)) and np.allclose(np.asarray(pn.value), interior(mc, xn), rtol=1e-12, atol=1e-14)
+            if np.all(np.isfinite(xn)):
+                S.check(bool(okn), f"C12:explicit-then-implicit:{kind}", "a variable returned by the explicit solver is not updated in place by a following implicit step", inp, None, None)
+                lhs2 = interior(mc, (Ms @ xn) - Rs).ravel() + (aarr.ravel() * (interior(mc, xn).ravel() - interior(mc, oldn).ravel()) / dt)
+                sc2 = interior(mc, absmat_scale(Ms, xn, Rs)).ravel() + np.abs(aarr.ravel() / dt) * (np.abs(interior(mc, xn).ravel()) + np.abs(interior(mc, oldn).ravel()))
+                ok2, _ = vec_close(lhs2, np.zeros_like(lhs2), sc2 * 1e3)
+                S.check(ok2, f"C12:row-law-after-explicit:{kind}", "row law violated for an implicit step that follows an explicit step", inp, float(np.max(np.abs(lhs2))), 0.0)
             if len(S.samples) < 2:
                 S.samples.append(inp)
         except Exception as ex:
@@ -337,12 +368,29 @@ def search_c17(rng, n, S=None, kinds=None):
         conv = rng.choice(["upwind", "central", "upwind+tvd", "none"])
         steps = rng.choice([1, 2, 3])
         lim = rng.choice(LIMITERS)
-        inp = case_of(mc, bc=bc_describe(spec), interior=x0, D=Darr, u=uarr, beta=beta, gamma=gamma, dt=dt, conv=conv, steps=steps, L=L, T=T, K=K, limiter=lim)
+        inp = case_of(mc, bc=bc_describe(spec), interior=x0, D=Darr, u=uarr, beta=beta, gamma=gamma, dt=dt, conv=conv, steps=steps, L=L, T=T, K=K, limiter=lim,
+                      mean=[None, "harmonic", "geometric", "arithmetic"][t % 4])
         S.sig(kind, tuple(mc.dims), conv, int(math.log10(abs(L))), int(math.log10(T)))
 
-        def run(mcX, specX, x_init, Ds, us, b_, g_, dt_):
+        meanname = [None, "harmonic", "geometric", "arithmetic"][t % 4]
+        kcell = np.abs(rand_vals(rng, mc.shape(), "pos")) * 1e-5 + 1e-6
+
+        def run(mcX, specX, x_init, Ds, us, b_, g_, dt_, kscale=1.0, explicit=False):
             phi = pf.CellVariable(mcX.m, x_init.copy(), make_bcs(mcX, specX))
-            D = make_facevar(mcX, Ds); u = make_facevar(mcX, us)
+            if meanname is not None:
+                # diffusivity given as a cell field (small in SI-like units) and averaged to the faces
+                fn = {"harmonic": pf.harmonicMean, "geometric": pf.geometricMean, "arithmetic": pf.arithmeticMean}[meanname]
+                D = fn(pf.CellVariable(mcX.m, kcell * kscale))
+            else:
+                D = make_facevar(mcX, Ds)
+            u = make_facevar(mcX, us)
+            if explicit:
+                # explicit steps read the re-imposed ghost cells: -(M x) as right-hand side
+                for _ in range(steps):
+                    Mx = -pf.diffusionTerm(D) + pf.convectionUpwindTerm(u)
+                    rhs = -(Mx @ np.asarray(phi._value).ravel())
+                    phi = pf.solveExplicitPDE(phi, dt_ * 1e-3, rhs)
+                return np.asarray(phi._value).copy()
             FL = quiet_limiter(lim)
             for _ in range(steps):
                 terms = [pf.transientTerm(phi, dt_, 1.0), -pf.diffusionTerm(D), pf.linearSourceTerm(pf.CellVariable(mcX.m, b_)),
@@ -357,7 +405,15 @@ def search_c17(rng, n, S=None, kinds=None):
             return np.asarray(phi._value).copy()
         try:
             v1 = run(mc, spec, x0, Darr, uarr, beta, gamma, dt)
-            v2 = run(mc2, spec2, x0 * K, [a * L * L / T for a in Darr], [a * L / T for a in uarr], beta / T, gamma * K / T, dt * T)
+            v2 = run(mc2, spec2, x0 * K, [a * L * L / T for a in Darr], [a * L / T for a in uarr], beta / T, gamma * K / T, dt * T, kscale=L * L / T)
+            # explicit stepping in both unit systems (reads the ghost cells re-imposed by the boundary conditions)
+            e1 = run(mc, spec, x0, Darr, uarr, beta, gamma, dt, explicit=True)
+            e2 = run(mc2, spec2, x0 * K, [a * L * L / T for a in Darr], [a * L / T for a in uarr], beta / T, gamma * K / T, dt * T, kscale=L * L / T, explicit=True)
+            if np.all(np.isfinite(e1)) and np.all(np.isfinite(e2)) and float(np.max(np.abs(e1))) < 1e6 * max(1.0, float(np.max(np.abs(x0)))):
+                j1, j2 = interior(mc, e1), interior(mc, e2)
+                sce = max(float(np.max(np.abs(j1))), 1e-300) * abs(K)
+                S.check(bool(np.all(np.abs(j2 - K * j1) <= 1e-7 * sce)), f"C17:units-explicit:{kind}", "explicit steps in rescaled units are not K times the steps in the original units", inp,
+                        float(np.max(np.abs(j2 - K * j1)) / sce), 0.0)
             if not (np.all(np.isfinite(v1)) and np.all(np.isfinite(v2))):
                 continue
             i1, i2 = interior(mc, v1), interior(mc, v2)
@@ -623,7 +679,14 @@ def search_c08(rng, n, S=None):
                 x0p = np.transpose(x0, perm)
                 Dp = [np.transpose(Ds[oldax], perm) for oldax in perm]
                 up = [np.transpose(us[oldax], perm) for oldax in perm]
-                inp = case_of(mc, mode=mode, perm=perm, conv=conv, dt=dt, steps=steps, interior=x0, D=Ds, u=us, bc=bc_describe(spec))
+                meanname = [None, "harmonic", None, "arithmetic", None, "geometric", None, "linear"][(t // 4) % 8]
+                if meanname is not None:
+                    # face diffusivity obtained from a cell coefficient through one of the averaging functions, on both grids
+                    fn = {"harmonic": pf.harmonicMean, "arithmetic": pf.arithmeticMean, "geometric": pf.geometricMean, "linear": pf.linearMean}[meanname]
+                    kc = rand_vals(rng, mc.shape(), "pos")
+                    Ds = [np.asarray(a, dtype=float) for a in facevar_arrays(mc, fn(pf.CellVariable(mc.m, kc)))]
+                    Dp = [np.asarray(a, dtype=float) for a in facevar_arrays(mcp, fn(pf.CellVariable(mcp.m, np.transpose(kc, perm))))]
+                inp = case_of(mc, mode=mode, perm=perm, conv=conv, dt=dt, steps=steps, interior=x0, D=Ds, u=us, bc=bc_describe(spec), mean=meanname)
                 v = interior(mc, run_steps(mc, spec, x0, Ds, us, conv, dt, steps))
                 vp = interior(mcp, run_steps(mcp, specp, x0p, Dp, up, conv, dt, steps))
                 if not (np.all(np.isfinite(v)) and np.all(np.isfinite(vp))):
